@@ -1,6 +1,7 @@
 import RV.C11.Lemmas
 import RV.C11.N3Lemmas
 import RV.C11.ApiLemmas
+import RV.C11.ViewLemmas
 /-
   C11 — "Property paths denote the relation SPARQL defines, for every binding of the ends."
 
@@ -751,6 +752,61 @@ theorem bgp_same_zero_length (g : Graph) (p : Path) (m : Mod) (hz : m.zero = tru
 -- the object-only literal 7: `?x ^q/q ?x` and `?x q* ?x` on `3 q 7`
 example : bgpSame [(3, 11, 7)] (.seq (.inv (.iri 11)) [.iri 11]) none = [(7, 7)] ∧
     bgpSame [(3, 11, 7)] (.mul (.iri 11) .zeroOrMore) none = [(3, 3), (7, 7)] := by decide
+
+/-! ### Round h — paths over graph *objects*: plain Graph / named-graph view, ConjunctiveGraph & Dataset(default_union),
+ReadOnlyGraphAggregate.  `evalPathV tr` is the evaluator handed the object's `triples` method `tr` (the only thing paths.py
+reads of it); `Coherent tr`: that method is a filter of its own full scan. -/
+
+mutual
+theorem evalPathV_computes {tr : TriplesFn} (h : Coherent tr) :
+    ∀ p : Path, Correct (nodes (tr none none none)) (evalPathV tr p) (relC (tr none none none) p)
+  | .iri p => by rw [evalPathV, relC]; exact triV_correct h p
+  | .inv p => by rw [evalPathV, relC]; exact inv_correct (evalPathV_computes h p)
+  | .seq p ps => by
+    rw [evalPathV, relC]
+    exact seq_correct (evalPathV_computes h p) (evalListV_computes h ps) (relC_iso _ p) (relCList_iso _ ps)
+  | .alt ps => by rw [evalPathV, relC]; exact alt_correct (evalListV_computes h ps)
+  | .mul p m => by rw [evalPathV, relC]; exact mul_correct (evalPathV_computes h p) (relC_iso _ p) m
+  | .neg fw bw => by rw [evalPathV, relC]; exact negV_correct h fw bw
+theorem evalListV_computes {tr : TriplesFn} (h : Coherent tr) :
+    ∀ ps : List Path, CorrectL (nodes (tr none none none)) (evalListV tr ps) (relCList (tr none none none) ps)
+  | [] => by rw [evalListV, relCList]; exact .nil
+  | p :: ps => by rw [evalListV, relCList]; exact .cons (evalPathV_computes h p) (evalListV_computes h ps)
+end
+
+/-- Evaluating a path over a graph object reads it through `triples` only, and yields exactly what evaluation over the
+    list of triples the object scans yields (so every theorem above transfers); closures stay duplicate-free.  The three
+    kinds of object rdflib has are coherent and scan exactly the triples of their contexts / members. -/
+def Statement_view_eval_same : Prop :=
+  (∀ (tr : TriplesFn), Coherent tr → ∀ (p : Path) (s o : Option Term),
+    (∀ x y, (x, y) ∈ evalPathV tr p s o ↔ (x, y) ∈ evalPath (tr none none none) p s o) ∧
+    (p.isClosure = true → (evalPathV tr p s o).Nodup)) ∧
+  (∀ g : Graph, Coherent (plainView g) ∧ ∀ t, t ∈ plainView g none none none ↔ t ∈ g) ∧
+  (∀ ctxs : List Graph, Coherent (unionView ctxs) ∧ ∀ t, t ∈ unionView ctxs none none none ↔ ∃ c ∈ ctxs, t ∈ c) ∧
+  (∀ ms : List Graph, Coherent (aggView ms) ∧ ∀ t, t ∈ aggView ms none none none ↔ ∃ m ∈ ms, t ∈ m)
+
+theorem nodupV_aux (tr : TriplesFn) : ∀ (p : Path) (s o : Option Term), p.isClosure = true → (evalPathV tr p s o).Nodup
+  | .mul p m, s, o, _ => by rw [evalPathV]; exact mul_nodup _ _ m s o
+  | .inv p, s, o, h => by
+    rw [evalPathV]
+    simp only [Path.isClosure] at h
+    exact nodup_invEval (nodupV_aux tr p o s h)
+  | .iri _, _, _, h => by simp [Path.isClosure] at h
+  | .seq _ _, _, _, h => by simp [Path.isClosure] at h
+  | .alt _, _, _, h => by simp [Path.isClosure] at h
+  | .neg _ _, _, _, h => by simp [Path.isClosure] at h
+
+theorem view_eval_same : Statement_view_eval_same := by
+  refine ⟨fun tr h p s o => ⟨fun x y => ?_, nodupV_aux tr p s o⟩,
+    fun g => ⟨plainView_coherent g, fun t => by simp [plainView, matchT_none]⟩,
+    fun ctxs => ⟨unionView_coherent ctxs, mem_unionView_scan ctxs⟩,
+    fun ms => ⟨aggView_coherent ms, mem_aggView_scan ms⟩⟩
+  rw [evalPathV_computes h p s o x y, evalPath_computes (tr none none none) p s o x y]
+
+-- `p/q` over an aggregate whose members hold one hop each, a shared triple, and the named view that sees one member only
+example : evalPathV (aggView [[(1, 10, 2), (5, 10, 5)], [(2, 11, 3), (5, 10, 5)]]) (.seq (.iri 10) [.iri 11]) none none = [(1, 3)] ∧
+    evalPathV (unionView [[(1, 10, 2), (5, 10, 5)], [(2, 11, 3), (5, 10, 5)]]) (.mul (.iri 10) .oneOrMore) none none = [(1, 2), (5, 5)] ∧
+    evalPathV (plainView [(2, 11, 3), (5, 10, 5)]) (.seq (.iri 10) [.iri 11]) none none = [] := by decide
 
 /-! ### The repaired defects of the pinned code (before the `fix:` commits now on /repo main), kept as
     regression witnesses.  Each definition is the pre-fix generator; each theorem shows on a
